@@ -124,6 +124,8 @@ def c15_run(desc):
                 os.kill(lis.p.p.pid, signal.SIGSTOP)
             cmds15 = ["build", "test"] if desc.get("ncmd") == 2 else ["build"]
             argv_, cwd_ = r.cmdline("run", "-c", *(cmds15 + ["-t"] + [t["path"] for t in T15] + ["--deps"]))
+            if desc.get("pattern") in ("-v", "-vv", "-vvv"):
+                argv_ = argv_[:1] + [desc["pattern"]] + argv_[1:]   # the run prints its own diagnostics, up to trace level
             p = c.spawn("run", argv_, cwd_, s.env(c.env()))
             killed = fate == "before_run"
             if lis is not None and fate == "during_handshake":
@@ -328,6 +330,13 @@ def c15_scenarios(tier):
     out.append({"listener": None, "fate": "mid_output", "pattern": "restart-big"})
     for cfg in (["--stdout", "--stderr"], ["--stdout", "--stderr", "-t", "a"], ["--stderr"]):
         out.append({"listener": cfg, "fate": "mid_output", "pattern": "restart-big"})
+    # the run itself at every verbosity (the listener stays as it is)
+    for vb in ("-v", "-vv", "-vvv"):
+        out.append({"listener": None, "fate": "never", "pattern": vb})
+        for cfg in (["--stdout", "--stderr"], ["--stderr", "-t", "a"]):
+            out.append({"listener": cfg, "fate": "never", "pattern": vb})
+        out.append({"listener": None, "fate": "mid_output", "pattern": vb})
+        out.append({"listener": ["--stdout", "--stderr"], "fate": "mid_output", "pattern": vb})
     # clean SIGTERM variant
     for fate in FATES[1:]:
         out.append({"listener": ["--stdout", "--stderr"], "fate": fate, "term": True})
